@@ -363,10 +363,15 @@ func ruleOneOperatorPerRegion(c *Ctx) {
 	c.atomRejects(ar, ca, "version != operator's version", relMatcher("!=", resultOfCall(getVer), resultOfCall(getVer)), boolReturn(false))
 	c.atomRejects(ar, ca, "conf version != operator's conf version", relMatcher("!=", resultOfCall(getConf), resultOfCall(getConf)), boolReturn(false))
 	c.atomRejects(ar, ca, "status != CREATED", relMatcher("!=", resultOfCall(status), isConstInt(created)), boolReturn(false))
-	higher := F(P.Func(sch, "isHigherPriorityOperator"))
+	// the priority test, through its helper or written in place: the new operator's level is not above the old one's
+	getPrio := F(P.Method("server/schedule/operator", "Operator", "GetPriorityLevel"))
+	higherFn := P.funcOpt(sch, "isHigherPriorityOperator")
 	c.atomRejects(ar, ca, "existing operator of not lower priority", func(cond ssa.Value, pos bool) bool {
-		cl, ok := cond.(*ssa.Call)
-		return ok && !pos && higher.Match(cl.Common())
+		if cl, ok := cond.(*ssa.Call); ok && higherFn != nil {
+			return !pos && F(higherFn).Match(cl.Common())
+		}
+		r, ok := relOf(cond, pos)
+		return ok && matchRel(r, "<=", resultOfCall(getPrio), resultOfCall(getPrio))
 	}, boolReturn(false))
 	expired := F(P.Method("server/schedule/operator", "Operator", "CheckExpired"))
 	c.Check(len(callsIn(ca, false, expired)) > 0, ar, "CheckExpired in "+fnName(ca), "expired operators are not admitted", P.pos(ca.Pos()), "")
@@ -659,7 +664,7 @@ func ruleStaleDetection(c *Ctx) {
 		if !ok || len(r.Results) != 1 {
 			return false
 		}
-		b, isB := constBool(retVal(r, 0))
+		b, isB := constBool(resolved(retVal(r, 0))) // the value returned on this path (a result variable is a φ)
 		return !(isB && b)
 	}, []Ev{guardCall("RemoveOperator(op) removed it", true, callMatcher(remove))}, func(h []bool) bool { return !h[0] },
 		"once the operator was removed as stale the answer is true: Dispatch must not go on to send its step")
@@ -709,33 +714,15 @@ func ruleStepAccounting(c *Ctx) {
 		a := callArgs(cl.Common())
 		return len(a) == 1 && (isLoadOf(a[0], toStore) || fieldOfField(strip(a[0])) == toStore)
 	}, isNilConst)
-	c.need(rule, leave, "call DemoteVoter.ConfVerChanged", instrCallMatcher(dvCV), []Ev{present}, all,
-		"a demoted voter is consulted only while a peer still exists on its store (looked up by store id): once a later step removed it, its demotion stays accounted for")
-	// the same in the enter step: a demoted voter that a later step already removed does not void the accounting
-	enter := P.Method(op, "ChangePeerV2Enter", "ConfVerChanged")
-	getStoreVoter := F(P.Method("server/core", "RegionInfo", "GetStoreVoter"))
-	isDemotedLookup := func(v ssa.Value) bool {
-		cl, _ := callOf(v)
-		if cl == nil || (!getStorePeer.Match(cl.Common()) && !getStoreVoter.Match(cl.Common())) {
-			return false
-		}
-		a := callArgs(cl.Common())
-		return len(a) == 1 && (isLoadOf(a[0], toStore) || fieldOfField(strip(a[0])) == toStore)
+	if len(callsIn(leave, false, dvCV)) > 0 {
+		c.need(rule, leave, "call DemoteVoter.ConfVerChanged", instrCallMatcher(dvCV), []Ev{present}, all,
+			"a demoted voter is consulted only while a peer still exists on its store (looked up by store id): once a later step removed it, its demotion stays accounted for")
+	} else {
+		// the per-voter test written in place: decided like the enter step below
+		demoteAccounting(c, rule, leave, "leave")
 	}
-	looked := &calledEv{name: "a demoted voter was looked up", match: func(x ssa.Instruction) bool {
-		v, ok := x.(ssa.Value)
-		return ok && isDemotedLookup(v)
-	}}
-	presentE := guardRel("peer on dv.ToStore != nil", "!=", isDemotedLookup, isNilConst)
-	c.need(rule, enter, "answer 0 (nothing accounted)", func(x ssa.Instruction) bool {
-		r, ok := x.(*ssa.Return)
-		if !ok || len(r.Results) != 1 {
-			return false
-		}
-		k, isC := constInt(r.Results[0])
-		return isC && k == 0
-	}, []Ev{looked, presentE}, func(h []bool) bool { return !h[0] || h[1] },
-		"the enter step voids its accounting over a demoted voter only while a peer still exists on that store: once a later step removed it, the demotion stays accounted for")
+	// the same in the enter step: a demoted voter that a later step already removed does not void the accounting
+	demoteAccounting(c, rule, P.Method(op, "ChangePeerV2Enter", "ConfVerChanged"), "enter")
 	// siblings: every step that names the peer it acts on (a PeerID field) decides "my change was applied"
 	// by comparing the id of the peer found on its store with that PeerID — the store alone is not enough
 	// once a later step of the same operator put another peer there
@@ -829,4 +816,38 @@ func ruleStartedOperatorIsRegistered(c *Ctx) {
 		"the operator that is replaced ends in status REPLACED")
 	c.mustFollowEdge(rule, fn, "the region already has a running operator", hasOld, "removeOperatorLocked(old)", instrCallMatcher(rmLocked), nil,
 		"the operator that is replaced is taken out of the running set (and its counters) before the new one is started")
+}
+
+// demoteAccounting: a joint-consensus step answers 0 ("my change is not
+// applied") over a demoted voter only while a peer still exists on that
+// voter's store; once a later step of the operator removed it, the demotion
+// stays accounted for.
+func demoteAccounting(c *Ctx, rule string, fn *ssa.Function, which string) {
+	P := c.P
+	op := "server/schedule/operator"
+	toStore := P.Field(op, "DemoteVoter", "ToStore")
+	getStorePeer := F(P.Method("server/core", "RegionInfo", "GetStorePeer"))
+	getStoreVoter := F(P.Method("server/core", "RegionInfo", "GetStoreVoter"))
+	isDemotedLookup := func(v ssa.Value) bool {
+		cl, _ := callOf(v)
+		if cl == nil || (!getStorePeer.Match(cl.Common()) && !getStoreVoter.Match(cl.Common())) {
+			return false
+		}
+		a := callArgs(cl.Common())
+		return len(a) == 1 && (isLoadOf(a[0], toStore) || fieldOfField(strip(a[0])) == toStore)
+	}
+	looked := &calledEv{name: "a demoted voter was looked up", match: func(x ssa.Instruction) bool {
+		v, ok := x.(ssa.Value)
+		return ok && isDemotedLookup(v)
+	}}
+	presentE := guardRel("peer on dv.ToStore != nil", "!=", isDemotedLookup, isNilConst)
+	c.need(rule, fn, "answer 0 (nothing accounted)", func(x ssa.Instruction) bool {
+		r, ok := x.(*ssa.Return)
+		if !ok || len(r.Results) != 1 {
+			return false
+		}
+		k, isC := constInt(resolved(r.Results[0]))
+		return isC && k == 0
+	}, []Ev{looked, presentE}, func(h []bool) bool { return !h[0] || h[1] },
+		"the "+which+" step voids its accounting over a demoted voter only while a peer still exists on that store: once a later step removed it, the demotion stays accounted for")
 }
